@@ -113,3 +113,32 @@ contract(MM + "lessThanOrEqual", serves=["C14"], spec_module="spec.scalars",
          requires=["0 <= a", "0 < b", "b <= 1e15"],
          ensures=[("moves-if-within", "(not (a <= b)) or result"),
                   ("untouched-beyond", "(not (a > b * (1 + 2e-14))) or (not result)")])
+
+
+def tier_dict(S, name="tier"):
+    lo, hi = S.real(name + ".xmin"), S.real(name + ".xmax")
+    # entries as _sortEntries leaves them: sorted, valid, pairwise disjoint (a well-formed tier's entries)
+    ents = S.list(name + ".entries", "Interval", all="e.start < e.end", pair="a.end <= b.start")
+    return {"class": "IntervalTier", "name": S.str(name + ".name"), "xmin": lo, "xmax": hi, "entries": ents}
+
+
+LO = "(tier['xmin'] if minTime is None else minTime)"
+HI = "(tier['xmax'] if maxTime is None else maxTime)"
+OLDE = "old['tier']['entries']"
+
+contract(IO + "_fillInBlanks", serves=["C04", "C02"], spec_module="spec.scalars",
+         configs={"minTime": [None, "sym"], "maxTime": [None, "sym"]},
+         inputs=lambda S, cfg: dict(tier=tier_dict(S), blankLabel="",
+                                    minTime=None if cfg["minTime"] is None else S.real("minTime"),
+                                    maxTime=None if cfg["maxTime"] is None else S.real("maxTime")),
+         requires=["0 <= %s" % LO, "%s < %s" % (LO, HI), "%s <= 1e15" % HI],
+         # no refinement spec: the postconditions below are the clauses of C02 / C04 themselves
+         loops={"loop#1": {"carried": {"prevEnd": "float(entries[j][1])"}}},
+         raises={"ParsingError": "len(%s) > 0 and (%s[0][0] < %s or %s[-1][1] > %s)" % (OLDE, OLDE, LO, OLDE, HI)},
+         ensures=[("gap-free", "adjacent(tier['entries'], lambda a, b: a[1] == b[0])"),
+                  ("positive-length", "forall(tier['entries'], lambda e: e[0] < e[1])"),
+                  ("starts-at-min", "tier['entries'][0][0] == %s" % LO),
+                  ("ends-at-max", "tier['entries'][-1][1] == %s" % HI),
+                  # "the original entries are among the written ones / only blanks are added" is not proved here
+                  # (inclusion through the index-carried loop was not derivable); c04_save_sweep checks it bounded
+                  ("sorted", "is_sorted(tier['entries'])")])
